@@ -1461,8 +1461,9 @@ def rule_fill_loops_end(out, tier):
 
 RULES = {
     "C16": [rule_coded_stream_bounds, rule_blocks, rule_fill_loops_end],
-    "C01": [rule_coded_stream_bounds, rule_serializer_twins, rule_output_order],
+    "C01": [rule_coded_stream_bounds, rule_serializer_twins, rule_output_order, rule_reader_overwrites],
     "C15": [rule_cxx_header],
     "C04": [rule_cxx_header, rule_output_order],
+    "C03": [rule_output_order, rule_reader_overwrites],
     "C17": [rule_reader_overwrites, rule_blocks],
 }
